@@ -585,6 +585,48 @@ fn explore_attrs(idx: usize, e: &Entry, first: Option<usize>, thorough: bool, t:
     let alpha = corpus::attr_alphabet();
     let foreign = corpus::foreign_attrs();
     let names: Vec<String> = s.attrs.clone();
+    if names.is_empty() {
+        // forwarding-only receiver: every combination of 0..2 unrelated attributes
+        if first.is_some() {
+            return;
+        }
+        let mut combos: Vec<Vec<String>> = vec![vec![]];
+        for f in &foreign {
+            combos.push(vec![f.to_string()]);
+            for g in &foreign {
+                combos.push(vec![f.to_string(), g.to_string()]);
+            }
+        }
+        for attrs in combos {
+            let src = format!("{prefix}{} {suffix}", attrs.join(" "));
+            let obs = (e.run)(&src);
+            t.evaluations += 1;
+            t.states += 1;
+            t.traces += 1;
+            let complaint = match &obs {
+                Obs::Panic(p) => Some(format!("panicked: {p}")),
+                Obs::Ok(v) => {
+                    let (got, _) = split_attrs_val(v);
+                    let want = expected_forwarded(s, &src);
+                    t.hit("forwarding_checked");
+                    match (got, want) {
+                        (Some(Val::List(g)), Some(w)) if g == w => None,
+                        (g, w) => Some(format!("forwarded attrs {g:?}, expected {w:?}")),
+                    }
+                }
+                other => Some(format!("a receiver with only optional members failed: {other:?}")),
+            };
+            if let Some(c) = complaint {
+                t.violate(Violation {
+                    key: format!("C08 family=[{}] src=`{src}` :: {c}", e.prog.family),
+                    what: format!("[{}] `{src}`: {c}", e.prog.family),
+                    case: json!({"engine": "corpus-attrs", "program": idx, "src": src, "items": []}),
+                    detail: json!({}),
+                });
+            }
+        }
+        return;
+    }
     let maxlen = if thorough { 4 } else { 3 };
     let a = alpha.len();
     let check = |attrs: &[String], base_key: &str, what: &str, items: &[Item], t: &mut Tally| {
@@ -793,7 +835,7 @@ pub fn main(entries: Vec<Entry>) {
         .iter()
         .enumerate()
         .flat_map(|(i, e)| {
-            let a = if prop == "C17" { 0 } else if prop == "C08" { corpus::attr_alphabet().len() } else if matches!(e.prog.decls[e.prog.root], Decl::Enum(_)) { 0 } else { corpus::root_alphabet(&e.prog).len() };
+            let a = if matches!(&e.prog.decls[e.prog.root], Decl::Struct(s) if s.tr8.element_level() && s.attrs.is_empty()) { 0 } else if prop == "C17" { 0 } else if prop == "C08" { corpus::attr_alphabet().len() } else if matches!(e.prog.decls[e.prog.root], Decl::Enum(_)) { 0 } else { corpus::root_alphabet(&e.prog).len() };
             std::iter::once((i, None)).chain((0..a).map(move |f| (i, Some(f))))
         })
         .collect();
@@ -802,6 +844,19 @@ pub fn main(entries: Vec<Entry>) {
         .map(|(i, first)| {
             let e = &entries[*i];
             let mut t = Tally::default();
+            let forwarding_only = matches!(&e.prog.decls[e.prog.root], Decl::Struct(s) if s.tr8.element_level() && s.attrs.is_empty());
+            if forwarding_only && prop != "C08" {
+                if first.is_none() {
+                    explore_attrs(*i, e, None, thorough, &mut t);
+                    // only panics belong to the other properties
+                    t.violations.retain(|v| v.key.contains("panicked"));
+                    for v in &mut t.violations {
+                        v.key = v.key.replacen("C08 ", &format!("{prop} "), 1);
+                    }
+                    t.hit("programs");
+                }
+                return t;
+            }
             if prop == "C17" {
                 if first.is_none() {
                     explore_sugg(*i, e, thorough, !args.iter().any(|a| a == "--no-sugg"), &mut t);
